@@ -23,6 +23,7 @@ func init() {
 			ruleAlwaysCancels(r, "K7")
 			ruleC15K9(r)
 			ruleNoTruncatedZeroTest(r, "K10", "/wire", "/iscp")
+			ruleDefaultsFillOnlyUnset(r, "K11", "/iscp", "/wire")
 			r.borrow("C06", func() { ruleC06R8(r) }) // a broker ping is never dropped by the demultiplexer
 			r.borrow("C07", func() { ruleC07R2(r) }) // per-alias delivery never blocks the reader that also routes pongs
 			ruleLoopDrivers(r, "K8", "the keep-alive stays periodic: in package wire every receive inside a loop from a time source is a Ticker, a time.After, or a Timer that is re-armed inside the loop when its branch continues the loop", func(fn *ssa.Function) bool { return fnPkgPath(fn) == modPath+"/wire" }, 1)
@@ -217,6 +218,27 @@ func ruleC15K3(r *Run) {
 			detail = "RequestID <- [" + joinLeaves(l) + "]"
 		}
 		r.Check(name+" pong id", ok, p.pos(lit.Alloc.Pos()), name, detail)
+		// the pong goes out on the reliable transport (the unreliable one may be absent, and the broker listens for pongs here)
+		written := false
+		var via []string
+		allInstrs(lit.Fn, func(ins ssa.Instruction) {
+			cc := instrCall(ins)
+			if cc == nil || !cc.IsInvoke() || cc.Method.Name() != "Write" || len(cc.Args) == 0 {
+				return
+			}
+			arg := cc.Args[0]
+			if mi, isMI := arg.(*ssa.MakeInterface); isMI {
+				arg = mi.X
+			}
+			if arg != ssa.Value(lit.Alloc) {
+				return
+			}
+			via = p.Leaves(cc.Value, provOpts{})
+			if hasLeaf(via, "field:/wire.ClientConn.transport") && !hasLeaf(via, "field:/wire.ClientConn.unreliableTransport") {
+				written = true
+			}
+		})
+		r.Check(name+" pong on the reliable transport", written, p.pos(lit.Alloc.Pos()), name, "the pong is written through ["+joinLeaves(via)+"]; it must be ClientConn.transport")
 	}
 	if n == 0 {
 		r.Check("pong is sent", false, "", "wire", "no message.Pong is built in package wire: broker pings are never answered")
